@@ -10,6 +10,12 @@ import ast
 from .astutil import src, call_name, call_attr, is_name
 
 
+def _sum_parts(e):
+    if isinstance(e, ast.BinOp) and isinstance(e.op, ast.Add):
+        return _sum_parts(e.left) + _sum_parts(e.right)
+    return [e]
+
+
 def fresh_sites(func):
     """[(call node, avoid-list expr, how, ok, detail)] for every get_variant_name call directly in func (not in nested functions)"""
     out = []
@@ -30,8 +36,13 @@ def fresh_sites(func):
             continue
         avoid = c.args[1]
         if not isinstance(avoid, ast.Name):
-            out.append((c, avoid, 'expression', True, 'computed in place'))
-            continue
+            # a concatenation of lists: a part that is a shared list is judged like a shared list
+            parts = _sum_parts(avoid)
+            shared = [x for x in parts if isinstance(x, ast.Name) and x.id not in own]
+            if not shared:
+                out.append((c, avoid, 'expression', True, 'computed in place'))
+                continue
+            avoid = shared[0]
         if avoid.id in own:
             out.append((c, avoid, 'local', True, 'the list is computed in this activation'))
             continue
